@@ -135,6 +135,8 @@ def _run_unit(modname, unit_name, tier, seed):
         ctx = UnitCtx(unit, tier, seed)
         factor = float(os.environ.get("PYVC_BUDGET_FACTOR", "1"))
         ctx.ex.deadline = time.time() + factor * (unit.budget_s if tier == "quick" else 4 * unit.budget_s)
+        from . import poly as _poly
+        _poly.DEADLINE = ctx.ex.deadline + 5          # the kernel gives up shortly after the unit's budget
         unit.fn(ctx, *unit.args)
         ex = ctx.ex
         res["obligations"] = [o.as_dict() for o in ex.obligations]
